@@ -67,11 +67,19 @@ def run_plain(job):
     return out
 
 
-def run_many(jobs, procs=None, timeout=600.0):
+def run_twice(job):
+    """Worker: the same seeded run executed twice IN THE SAME PROCESS (state kept in module globals or caches by
+    the library would make the second differ). Returns {"first": summary, "second": summary}."""
+    a = run_plain(dict(job))
+    b = run_plain(dict(job, seed=job["seed"] + 4321, pre_draws=11))
+    return {"first": a, "second": b}
+
+
+def run_many(jobs, procs=None, timeout=600.0, func=None):
     from . import procs as pr
     from .sysrun import PROCS
 
-    res = pr.run(run_plain, jobs, procs=min(procs or PROCS, max(1, len(jobs))), timeout=timeout)
+    res = pr.run(func or run_plain, jobs, procs=min(procs or PROCS, max(1, len(jobs))), timeout=timeout)
     out = []
     for j, (st, r) in zip(jobs, res):
         if st == "ok":
